@@ -168,7 +168,9 @@ impl Run {
 
 	pub fn from_env(id: &str, level: &str) -> Run {
 		let cli = parse_cli();
-		Run::new(id, level, &cli)
+		let run = Run::new(id, level, &cli);
+		start_rss_guard(id, &cli.rest);
+		run
 	}
 
 	pub fn elapsed_s(&self) -> f64 {
@@ -299,6 +301,7 @@ impl Run {
 
 	/// Write evidence, print verdict lines, return the exit code.
 	pub fn finish_code(&self) -> i32 {
+		self.set_max("max_rss_mb_main", PEAK_RSS_MB.load(std::sync::atomic::Ordering::Relaxed).max(rss_mb()));
 		let i = self.inner.lock().unwrap();
 		let wall = self.start.elapsed().as_secs_f64();
 		let known = self.known_findings();
@@ -464,6 +467,7 @@ impl Run {
 
 	/// Worker side: dump everything recorded so far as one line on stdout and exit 0.
 	pub fn finish_worker(&self) -> ! {
+		self.set_max("max_rss_mb_worker", PEAK_RSS_MB.load(std::sync::atomic::Ordering::Relaxed).max(rss_mb()));
 		let v = {
 			let i = self.inner.lock().unwrap();
 			json!({
@@ -536,6 +540,20 @@ impl Run {
 	/// the raw results (for cross-worker comparisons through `extras`). A worker
 	/// that dies or times out is recorded as inconclusive, never as a violation.
 	pub fn spawn_workers(&self, n: usize, extra: &[String], timeout_s: u64) -> Vec<Value> {
+		self.spawn_workers_ex(n, extra, timeout_s, &|_, _, _| false)
+	}
+
+	/// As `spawn_workers`; `on_abnormal(worker, exit code, stderr)` is called for a worker that
+	/// did not end with exit 0 + a result line; if it returns true the caller has classified the
+	/// exit itself (e.g. the allocation / hang monitor fired: exit 86 / 87), otherwise the exit is
+	/// recorded as inconclusive.
+	pub fn spawn_workers_ex(
+		&self,
+		n: usize,
+		extra: &[String],
+		timeout_s: u64,
+		on_abnormal: &dyn Fn(usize, Option<i32>, &str) -> bool,
+	) -> Vec<Value> {
 		use std::io::Read;
 		use std::process::{Command, Stdio};
 		let exe = std::env::current_exe().expect("current_exe");
@@ -611,6 +629,9 @@ impl Run {
 			}
 			match status {
 				Some(st) if st.success() && got => {}
+				Some(st) if on_abnormal(i, st.code(), &err) => {
+					self.count("workers_stopped_by_a_monitor", 1);
+				}
 				Some(st) => {
 					let tail: String = err.chars().rev().take(400).collect::<String>().chars().rev().collect();
 					self.inconclusive(&format!(
@@ -627,6 +648,54 @@ impl Run {
 		}
 		results
 	}
+}
+
+/// Highest resident set size (MiB) seen by the guard thread of this process.
+pub static PEAK_RSS_MB: std::sync::atomic::AtomicU64 = std::sync::atomic::AtomicU64::new(0);
+pub const EXIT_RSS_OVER_CAP: i32 = 88;
+
+fn rss_mb() -> u64 {
+	std::fs::read_to_string("/proc/self/statm")
+		.ok()
+		.and_then(|s| s.split_whitespace().nth(1).and_then(|x| x.parse::<u64>().ok()))
+		.map(|pages| pages * 4096 / (1 << 20))
+		.unwrap_or(0)
+}
+
+/// Machine protection: code under test that runs away allocating (seen with a mutated
+/// `family_branch` on a tall position: 64 GiB in seconds) must not take the machine down
+/// with it. A process of a check whose resident set exceeds the cap stops itself; that is
+/// never a verdict on the property: a worker exits 88 (its parent records "inconclusive"
+/// unless it can attribute the exit), a main process prints an inconclusive line and exits 2.
+/// Caps: VERIF_RSS_CAP_MB, default 16 GiB for a main process, 6 GiB for a worker, x3 in
+/// sanitizer workloads (`--san`).
+fn start_rss_guard(id: &str, args: &[String]) {
+	use std::sync::atomic::Ordering;
+	let worker = args.iter().any(|a| a == "--worker");
+	let san = args.iter().any(|a| a == "--san");
+	let mut cap: u64 = std::env::var("VERIF_RSS_CAP_MB")
+		.ok()
+		.and_then(|v| v.parse().ok())
+		.unwrap_or(if worker { 6 * 1024 } else { 16 * 1024 });
+	if san {
+		cap *= 3;
+	}
+	let id = id.to_string();
+	let _ = std::thread::Builder::new().name("rss-guard".into()).spawn(move || loop {
+		let r = rss_mb();
+		PEAK_RSS_MB.fetch_max(r, Ordering::Relaxed);
+		if r > cap {
+			eprintln!("\nRSS-OVER-CAP rss_mb={} cap_mb={}", r, cap);
+			if worker {
+				unsafe { libc::_exit(EXIT_RSS_OVER_CAP) };
+			} else {
+				eprintln!("[{}] inconclusive: the check process exceeded its resident-memory cap ({} MiB > {} MiB) and stopped itself", id, r, cap);
+				cleanup_scratches();
+				unsafe { libc::_exit(2) };
+			}
+		}
+		std::thread::sleep(std::time::Duration::from_millis(100));
+	});
 }
 
 static SCRATCHES: Mutex<Vec<PathBuf>> = Mutex::new(Vec::new());
